@@ -559,6 +559,27 @@ Definition hist_model (c : World.world * list op) : list value :=
                                  {'op': 'value', 'chain': 0, 'pick': 2}, {'op': 'reset', 'chain': 0, 'pick': 2},
                                  {'op': 'value', 'chain': 0, 'pick': 2}, {'op': 'value', 'chain': 0, 'pick': 1},
                                  {'op': 'flags', 'chain': 0}]))
+        # a -> b -> c -> d: a task inside the closure is already marked when its ancestor is forced through the chain
+        line = [dict(K(0, 'A'), name='a'), dict(K(1, 'B', meta_inputs=[{'cls': 0}]), name='b'),
+                dict(K(2, 'C', meta_inputs=[{'cls': 1}]), name='c'), dict(K(3, 'D', meta_inputs=[{'cls': 2}]), name='d')]
+        for rec in (False, True):
+            out.append(dict(classes=line, files={}, base=base, context=None,
+                            ops=[{'op': 'build', 'base': base}, {'op': 'value', 'chain': 0, 'pick': 3},
+                                 {'op': 'force_task', 'chain': 0, 'pick': 1, 'delete': False},
+                                 {'op': 'force_chain', 'chain': 0, 'picks': [0], 'recompute': rec, 'delete': False},
+                                 {'op': 'flags', 'chain': 0}, {'op': 'value', 'chain': 0, 'pick': 3}, {'op': 'value', 'chain': 0, 'pick': 2},
+                                 {'op': 'flags', 'chain': 0}, {'op': 'force_chain', 'chain': 0, 'picks': [1], 'recompute': False, 'delete': False},
+                                 {'op': 'value', 'chain': 0, 'pick': 2}, {'op': 'force_chain', 'chain': 0, 'picks': [0], 'recompute': rec, 'delete': False},
+                                 {'op': 'flags', 'chain': 0}, {'op': 'value', 'chain': 0, 'pick': 3}]))
+        # an in-memory task inside the closure with two dependants, recomputed through the chain
+        fan = [dict(K(0, 'Src'), name='src'), dict(K(1, 'Feat', meta_inputs=[{'cls': 0}], data='memory'), name='feat'),
+               dict(K(2, 'R1', meta_inputs=[{'cls': 1}]), name='r1', runargs=['feat']), dict(K(3, 'R2', meta_inputs=[{'cls': 1}]), name='r2', runargs=['feat']),
+               dict(K(4, 'R3', meta_inputs=[{'cls': 1}]), name='r3')]
+        out.append(dict(classes=fan, files={}, base=base, context=None,
+                        ops=[{'op': 'build', 'base': base}] + [{'op': 'value', 'chain': 0, 'pick': k} for k in (2, 3, 4)] +
+                            [{'op': 'force_chain', 'chain': 0, 'picks': [0], 'recompute': True, 'delete': False}, {'op': 'flags', 'chain': 0}] +
+                            [{'op': 'value', 'chain': 0, 'pick': k} for k in (2, 3, 4, 1)] +
+                            [{'op': 'force_chain', 'chain': 0, 'picks': [1], 'recompute': True, 'delete': True}, {'op': 'flags', 'chain': 0}]))
         # reset_data between forcing and the next request: the value held in memory goes, the mark stays
         out.append(dict(classes=dia, files={}, base=base, context=None,
                         ops=[{'op': 'build', 'base': base}, {'op': 'value', 'chain': 0, 'pick': 2},
